@@ -85,6 +85,9 @@ package fs
 //    these two clauses are executed against the real function on an enumerated input space instead)
 //@   ensures question_mark [C21 bounded]: !contains(pattern, "+") && !contains(pattern, ".") && !contains(pattern, "*") ==> \
 //@      result == "^" + replaceAll(pattern, "?", ".") + "$"
+//@   ensures other_characters_are_literal [C21 bounded]: !contains(pattern, "+") && !contains(pattern, ".") && !contains(pattern, "?") && \
+//@      !contains(pattern, "*") && !contains(pattern, "|") && !contains(pattern, "{") && !contains(pattern, "}") && !contains(pattern, "\\") ==> \
+//@      result == "^" + replaceAll(replaceAll(replaceAll(pattern, "(", "\\("), ")", "\\)"), "$", "\\$") + "$"
 //@   ensures literal_dot [C21 bounded]: !contains(pattern, "+") && !contains(pattern, "?") && !contains(pattern, "*") ==> \
 //@      result == "^" + replaceAll(pattern, ".", "\\.") + "$"
 //
